@@ -92,6 +92,14 @@ Theorem C19_derives_sorted_nodup : forall T e,
   StronglySorted ult (derives_of T e) /\ NoDup (derives_of T e).
 Proof. exact derives_sorted_nodup. Qed.
 
+(* the per-kind impl table used by the K4 check lists the validating Deserialize impl exactly for the
+   entries that emit it, and the From<&Self> impl for every named entry *)
+Theorem C19_expected_impls_cover_surface : forall T e k, kind_of T (e_det e) = Some k ->
+  (has_header "::serde::Deserialize<'de>" k = emits_validating_deserialize (e_det e)) /\
+  ((has_header "::std::convert::From<&Self>" k || has_header "::std::convert::From<&$T>" k)
+   = emits_from_ref_self (e_det e)).
+Proof. exact expected_impls_cover_surface. Qed.
+
 (* ---- non-vacuity: the hypotheses are satisfiable and the conclusions are not trivial ---- *)
 Definition ex_settings : settings := mkSettings None [u "PartialEq"] false (u "HashMap").
 Definition ex_space : space :=
